@@ -186,6 +186,10 @@ pub struct Gate {
     pub released: HashSet<usize>,
     pub arrivals: u64,
     pub done: bool,
+    /// the controller releases nothing before this instant (None: no hold)
+    pub hold_until: Option<Instant>,
+    /// the controller releases nothing at all while set
+    pub paused: bool,
 }
 
 /// Shared by all harness systems of one run.
